@@ -7,6 +7,8 @@ Relations
   vcf  : GenotypesVCF.write to .vcf / .vcf.gz (none, .tbi, .csi) / .bcf (none, .csi), the file
          inspected with pysam.VariantFile directly, then Genotypes.read by haptools without a
          region and with a whole contig as region; the same shapes
+  every relation carries a width-boundary stream (allele indices around 127|128 and up to 254, 256+ and 65536+
+         samples / variants, positions around 2^31 - 1)
   text : the names as characters: the .psam / .pvar text (PGEN) or the VCF text (.vcf, .vcf.gz
          decompressed) resp. pysam's view (.bcf) of samples, IDs, contigs, positions, alleles
          and GTs, and what haptools reads back; unusual but legal names
@@ -23,12 +25,15 @@ from .core import Relation, err_kind
 
 PROP = "C07"
 CLAIMED = True
-COQ_MODULES = ["C07_Check", "C07_ProofsText", "C07_Proofs"]
+COQ_MODULES = ["C07_Check", "C07_ProofsText", "C07_Proofs", "C07_ProofsWide"]
 PROPERTY_MODULE = "C07_Property"
 ALLOWED_AXIOMS = []
 RULE = (
     "matrices of 0-6 samples x 0-7 variants (the shapes n x 0, 0 x p and 0 x 0 in about 15% of the cases) on 1-3 "
-    "contigs, 2-5 alleles per variant, codes drawn from an arbitrary non-empty subset of each variant's alleles (so "
+    "contigs, 2-5 alleles per variant and, in about 6% of the matrices and in a fixed stream present in every run, a "
+    "repeat-like variant with 129, 130, 200, 254 or 255 alleles (ALT by formula) whose observed indices lie on both sides "
+    "of 127|128 and reach 200, 253 and 254, the largest index beside the missing value 255 (256 alleles as a refusal "
+    "outside the domain); codes drawn from an arbitrary non-empty subset of each variant's alleles (so "
     "unobserved middle alleles and single-allele columns occur), missing calls in any pattern (calls missing in one "
     "allele only for VCF, and in 8% of the PGEN cases to observe the refusal), phased/unphased/mixed, 2- and 3-plane "
     "arrays, the _prephased attribute set on the writing or reading object in about 10% of the cases; chunk sizes "
@@ -36,8 +41,14 @@ RULE = (
     "index / with .csi, read without a region and with a contig as region; names as text: sample names, variant IDs, "
     "contigs and alleles over printable ASCII and some non-ASCII letters - digits only, underscores, dots, '#' inside "
     "and in front, reserved words (IID, #IID, FID, CHROM, NA, None), a leading double quote, names of 60-300 "
-    "characters, IDs of exactly 50 and contigs of exactly 10 characters, symbolic and long alleles, positions up to "
-    "2^31-2. Non-trivial = at least one variant and one call that is heterozygous or missing (pgen, vcf); at least one "
+    "characters, IDs of exactly 50 and contigs of exactly 10 characters, symbolic and long alleles, ALT columns of "
+    "up to 254 alleles, positions up to 2^31-1. Width-boundary stream in every run (pgen and vcf): 127, 128, 255, 256, "
+    "257 or 300 samples x 1-2 variants and as many variants x 1-2 samples with chunk sizes 127, 128, 255, 256, p-1, p, "
+    "p+1, 1000 or 1001 samples x 1 variant and as many variants x 1 sample, one matrix with 32767..65537 samples and (pgen; vcf in the thorough tier) one with as many variants "
+    "(thorough: all of these sizes), positions 32767|32768, 65535|65536, 2^24+1, 2^29-1|2^29, 2^31-4..2^31-1 inside "
+    "the domain and 2^31, 2^31+1, 2^32-2, 2^32-1, 0 as refusals outside it (about 5% of the random matrices also carry "
+    "one such position). "
+    "Non-trivial = at least one variant and one call that is heterozygous or missing (pgen, vcf); at least one "
     "name outside [A-Za-z0-9] (text). Distinct = distinct canonical JSON."
 )
 TRUSTED = [
@@ -62,15 +73,25 @@ TRUSTED = [
     "harness transposes haptools' sample-major array to the model's variant-major rows (numpy.transpose)",
     "pgen/vcf relations: strings are interned to integers per case (they are only compared); text relation: strings "
     "are lists of code points",
+    "pysam converts start = pos - 1 and stop = pos + len(REF) - 1 (numpy uint32 arithmetic, wrapping modulo 2^32) to C "
+    "ints and raises OverflowError beyond 2^31 - 1; pgenlib.PvarReader refuses position 2^31 - 1 and more than 254 ALT "
+    "alleles with RuntimeError (C07_Model.write_guard; compared with the implementation on every run through the "
+    "refusals of the boundary stream)",
+    "harness: long regular lists in the case literals are written with zrange / rle / vrun (decoders in C07_Model.v, "
+    "specified by C07_zrange_spec / C07_rle_spec / C07_vrun_spec); irregular lists are written in full",
 ]
 ASSUMPTIONS = [
-    "domain of the round-trip theorems and of holds: every variant has 2..255 alleles, every allele index is within "
-    "the variant's allele list or 255 (missing), chunk sizes >= 1 or None; any number of samples and variants, 0 "
+    "domain of the round-trip theorems and of holds: every variant has 2..255 alleles (with a 256th allele the index "
+    "255 would be the missing value: C07_allele_limit_tight), every allele index is within "
+    "the variant's allele list or 255 (missing), positions 1..2^31-1 with the last base of REF at or below 2^31-1 "
+    "(PGEN: position below 2^31-1), chunk sizes >= 1 or None; any number of samples and variants, 0 "
     "included (an array without entries must come back as an array without entries, samples and variants unchanged)",
     "names (text relation and theorems): non-empty strings without tab, line feed, carriage return; variant IDs of at "
     "most 50 and contig names of at most 10 characters (longer ones are already cut when put into haptools' numpy "
     "record type, before anything is written), alleles without a comma, positions 1..2^31-2 with the last base of REF "
-    "at or below 2^31-1 (htslib/pgenlib limits; beyond them write raises OverflowError/RuntimeError), "
+    "at or below 2^31-1 (htslib/pgenlib limits; beyond them write raises OverflowError/RuntimeError: modelled as "
+    "write_guard, theorems C07_vcf_refused_beyond / C07_pgen_refused_beyond / C07_pgen_refused_by_pvar, compared by "
+    "agree; holds demands nothing there: pos_domb), "
     "ID not '.' (VCF's missing value), contigs and alleles over the characters the VCF specification allows",
     "PGEN, variants without samples: the format cannot hold them (pgenlib's writer crashes for sample_ct = 0); "
     "GenotypesPLINK.write refuses with ValueError, which holds accepts; an interpreter crash is not accepted",
@@ -90,6 +111,22 @@ ALPH = ["A", "C", "G", "T", "AC", "GT", "ACG", "TTA", "CA", "G"]
 
 # ----------------------------------------------------------------------------
 # building / dumping haptools objects
+
+
+_FROZEN = False
+
+
+def freeze_once():
+    """haptools calls gc.collect() after every chunk it writes or reads; in a forked worker a full collection walks
+    everything the harness holds at that moment (all generated inputs, the very large ones included: 0.1-0.5 s
+    each).  gc.freeze() takes the objects that exist at the start of the worker out of the collector's reach."""
+    global _FROZEN
+    if not _FROZEN:
+        import gc
+
+        gc.collect()
+        gc.freeze()
+        _FROZEN = True
 
 
 def build_obj(cls, path, inp, **kw):
@@ -129,6 +166,47 @@ def dump_obj(r):
 # Gallina literals
 
 
+# compact literals: long regular lists are not spelled out (Coq parses ~12 k chars/s).  The three
+# decoders zrange / rle / vrun are defined in C07_Model.v (specified in C07_ProofsWide.v); a list that is
+# not regular is written in full, so nothing depends on the regularity.
+
+
+def zl_compact(ints):
+    """list of ints -> Gallina list Z; ascending runs of 8 or more become (zrange a n)"""
+    ints = [int(x) for x in ints]
+    parts, lit, i = [], [], 0
+    while i < len(ints):
+        j = i
+        while j + 1 < len(ints) and ints[j + 1] == ints[j] + 1:
+            j += 1
+        if j + 1 - i >= 8:
+            if lit:
+                parts.append(L.zl(lit))
+                lit = []
+            parts.append(f"zrange {L.z(ints[i])} {j + 1 - i}")
+        else:
+            lit += ints[i:j + 1]
+        i = j + 1
+    if lit or not parts:
+        parts.append(L.zl(lit))
+    return parts[0] if len(parts) == 1 and parts[0].startswith("[") else "(" + " ++ ".join(parts) + ")"
+
+
+def seq_compact(terms):
+    """list of rendered elements -> Gallina list; long lists with few distinct neighbours become (rle ...)"""
+    n = len(terms)
+    if n >= 24:
+        runs = []
+        for t in terms:
+            if runs and runs[-1][1] == t:
+                runs[-1][0] += 1
+            else:
+                runs.append([1, t])
+        if 3 * len(runs) <= n:
+            return "(rle " + L.lst(runs, lambda r: f"({r[0]}, {r[1]})") + ")"
+    return L.lst(terms)
+
+
 class Enc:
     """Per-case interning of strings + geno literals."""
 
@@ -138,18 +216,53 @@ class Enc:
     def s(self, x):
         return L.z(self.i(("s", x)))
 
+    def samples(self, names):
+        return zl_compact([self.i(("s", x)) for x in names])
+
+    def alleles(self, al):
+        return zl_compact([self.i(("al", a)) for a in al])
+
     def variant(self, v):
         al = list(v[3])
         return (f"(mkvar {L.z(self.i(('id', v[0])))} {L.z(self.i(('chrom', v[1])))} {L.z(v[2])} "
-                f"{L.lst(al, lambda a: L.z(self.i(('al', a))))} {L.z(len(al[0]) if al else 0)})")
+                f"{self.alleles(al)} {L.z(len(al[0]) if al else 0)})")
+
+    def variants(self, vs):
+        """list of variants; 4 or more at regular distances on one contig with consecutive IDs and the
+        same alleles become (vrun ...)"""
+        if len(vs) < 24:
+            return L.lst(vs, self.variant)
+        keys = [(self.i(("id", v[0])), self.i(("chrom", v[1])), int(v[2]), tuple(v[3])) for v in vs]
+        parts, lit, i = [], [], 0
+        while i < len(vs):
+            j = i
+            step = keys[i + 1][2] - keys[i][2] if i + 1 < len(vs) else 0
+            while (j + 1 < len(vs) and keys[j + 1][0] == keys[j][0] + 1 and keys[j + 1][1] == keys[i][1]
+                   and keys[j + 1][3] == keys[i][3] and keys[j + 1][2] - keys[j][2] == step):
+                j += 1
+            if j + 1 - i >= 4:
+                if lit:
+                    parts.append(L.lst(lit, self.variant))
+                    lit = []
+                al = list(vs[i][3])
+                parts.append(f"vrun {L.z(keys[i][0])} {L.z(keys[i][1])} {L.z(keys[i][2])} {L.z(step)} "
+                             f"{self.alleles(al)} {L.z(len(al[0]) if al else 0)} {j + 1 - i}")
+            else:
+                lit += vs[i:j + 1]
+            i = j + 1
+        if lit or not parts:
+            parts.append(L.lst(lit, self.variant))
+        return parts[0] if len(parts) == 1 and parts[0].startswith("[") else "(" + " ++ ".join(parts) + ")"
 
     def call(self, c):
         ph = c[2] if len(c) > 2 else 1
         return f"({L.z(c[0])}, {L.z(c[1])}, {L.z(ph)})"
 
+    def rows(self, rows):
+        return seq_compact([seq_compact([self.call(c) for c in r]) for r in rows])
+
     def geno(self, samples, variants, rows, shape):
-        return (f"(mkg {L.lst(samples, self.s)} {L.lst(variants, self.variant)} "
-                f"{L.lst(rows, lambda r: L.lst(r, self.call))} {L.zl(shape)})")
+        return f"(mkg {self.samples(samples)} {self.variants(variants)} {self.rows(rows)} {L.zl(shape)})"
 
     def geno_in(self, inp):
         n, p, k = len(inp["samples"]), len(inp["variants"]), inp.get("planes", 3)
@@ -172,7 +285,36 @@ def oerr(obs):
 # generators
 
 
-def gen_matrix(rng, half_ok, pmax=7, nmax=6, pmin=0):
+INT_MAX = 2 ** 31 - 1
+# allele counts of the rare "many alleles" class: indices on both sides of 127|128 and up to the largest one a
+# uint8 matrix with 255 = missing can hold (254, for a variant with 255 alleles; pgenlib and htslib both take it)
+MANY_ALLELES = [129, 130, 200, 254, 255]
+# with a 256th allele the index 255 is the missing value and pgenlib refuses the variant: outside the domain
+MANY_ALLELES_BEYOND = [256]
+INDEX_BOUNDARY = [0, 1, 126, 127, 128, 129, 200, 253, 254, 255]
+# positions straddling the widths a position may be squeezed through (int16/uint16, float32's 2^24, the
+# 2^29 of a .tbi index, int32); the last base of REF may lie at 2^31 - 1 at most (PGEN: position < 2^31 - 1)
+POS_BOUNDARY = [32767, 32768, 65535, 65536, 16777217, 2 ** 29 - 1, 2 ** 29, 2 ** 31 - 4, 2 ** 31 - 3, 2 ** 31 - 2, 2 ** 31 - 1]
+# refused by write (OverflowError from pysam): beyond int32, and 0 (the uint32 start wraps)
+POS_BEYOND = [2 ** 31, 2 ** 31 + 1, 2 ** 32 - 2, 2 ** 32 - 1, 0]
+
+
+def many_alleles(na):
+    """REF A and na - 1 ALT alleles by formula: A followed by the base-4 numeral of the index over ACGT"""
+    out = ["A"]
+    for i in range(1, na):
+        d, k = "", i
+        while k:
+            d = "ACGT"[k % 4] + d
+            k //= 4
+        out.append("A" + d)
+    return out
+
+
+def gen_matrix(rng, half_ok, pmax=7, nmax=6, pmin=0, wide=0.06, bigpos=0.0, beyond=False):
+    """wide: probability that one variant of the matrix has 129..255 alleles (beyond: also 256) with
+    indices around 127|128 and up to the largest observed; bigpos: probability that one variant lies at a
+    boundary position (beyond: also positions write refuses)"""
     n = int(rng.integers(1, nmax + 1))
     p = int(rng.integers(pmin, pmax + 1))
     if rng.random() < 0.06:
@@ -187,6 +329,8 @@ def gen_matrix(rng, half_ok, pmax=7, nmax=6, pmin=0):
     pos = 0
     mode = rng.choice(["phased", "unphased", "mixed"])
     missmode = rng.choice(["none", "some", "some", "many"])
+    jmany = int(rng.integers(0, p)) if p and rng.random() < wide else -1
+    namany = int(rng.choice(MANY_ALLELES + (MANY_ALLELES_BEYOND if beyond and rng.random() < 0.3 else [])))
     for j in range(p):
         if j and cidx[j] != cidx[j - 1]:
             pos = 0
@@ -205,6 +349,13 @@ def gen_matrix(rng, half_ok, pmax=7, nmax=6, pmin=0):
         # the alleles that are actually observed: any non-empty subset
         k = int(rng.integers(1, na + 1))
         seen = sorted(rng.choice(na, size=k, replace=False).tolist())
+        if j == jmany:
+            na, alleles = namany, many_alleles(namany)
+            cand = sorted({x for x in INDEX_BOUNDARY + [na - 2, na - 1] if x < na})
+            k = int(rng.integers(1, len(cand) + 1))
+            seen = sorted(rng.choice(cand, size=k, replace=False).tolist())
+            if rng.random() < 0.5:
+                seen = sorted(set(seen) | {int(rng.integers(0, na))})
         row = []
         for s in range(n):
             a, b = int(rng.choice(seen)), int(rng.choice(seen))
@@ -222,10 +373,114 @@ def gen_matrix(rng, half_ok, pmax=7, nmax=6, pmin=0):
             row.append([a, b, ph])
         variants.append([ids[j], contigs[cidx[j]], pos, alleles])
         rows.append(row)
+    if p and rng.random() < bigpos:
+        val = int(rng.choice(POS_BOUNDARY + (POS_BEYOND if beyond and rng.random() < 0.4 else [])))
+        # the last variant of the matrix (the largest position of its contig), position 0 on the first one
+        j = 0 if val == 0 else p - 1
+        if val >= variants[j][2] or val == 0:
+            variants[j] = [variants[j][0], variants[j][1], val, variants[j][3]]
     planes = 2 if (mode == "phased" and rng.random() < 0.3) else 3
     if planes == 2:
         rows = [[[c[0], c[1], 1] for c in r] for r in rows]
     return {"samples": samples, "variants": variants, "rows": rows, "planes": planes}
+
+
+SIZE_BOUNDARY = [127, 128, 255, 256, 257, 300]
+SIZE_HUGE = [32767, 32768, 65535, 65536, 65537]
+
+
+def rand_calls(rng, n, na, mode, runs=False):
+    """n calls over na alleles; runs: long stretches of equal calls (for very long rows)"""
+    out = []
+    while len(out) < n:
+        a, b = int(rng.integers(0, na)), int(rng.integers(0, na))
+        if rng.random() < 0.1:
+            a = b = 255
+        ph = 1 if mode == "phased" else 0 if mode == "unphased" else int(rng.integers(0, 2))
+        k = int(rng.integers(1, max(2, n // 6))) if runs else 1
+        out += [[a, b, ph]] * k
+    return [list(c) for c in out[:n]]
+
+
+def boundary_matrices(rng, tier, beyond=True, huge_variants=True):
+    """The width-boundary stream, present in every run whatever the seed: allele counts and indices around
+    127|128 and 253|254|255|256, numbers of samples and of variants around 127|128 and 255|256|257 (thorough:
+    32767|32768, 65535|65536|65537), positions around 2^15, 2^16, 2^24, 2^29 and 2^31 - 1 | 2^31, 2^32 - 1."""
+    out = []
+    mode = lambda: str(rng.choice(["phased", "unphased", "mixed"]))
+    # many alleles: every boundary index observed
+    nas = MANY_ALLELES if tier == "thorough" else [255, int(rng.choice(MANY_ALLELES[:-1]))]
+    for na in nas + (MANY_ALLELES_BEYOND if beyond else []):
+        idx = sorted({x for x in INDEX_BOUNDARY + [na - 2, na - 1] if x < na})
+        rng.shuffle(idx)
+        if len(idx) % 2:
+            idx.append(idx[0])
+        md = mode()
+        row = [[idx[i], idx[i + 1], 1 if md == "phased" else 0 if md == "unphased" else int(rng.integers(0, 2))]
+               for i in range(0, len(idx), 2)]
+        row.append([255, 255, 0])
+        out.append({"samples": [f"s{j}" for j in range(len(row))], "variants": [["rep1", "1", 100, many_alleles(na)]],
+                    "rows": [row], "planes": 3})
+    # many samples / many variants
+    sizes = SIZE_BOUNDARY if tier == "thorough" else [int(x) for x in rng.choice(SIZE_BOUNDARY, size=2, replace=False)]
+    for n in sizes:
+        p, md = int(rng.integers(1, 3)), mode()
+        out.append({"samples": [f"s{j}" for j in range(n)],
+                    "variants": [[f"v{j}", "1", 10 + 5 * j, ["A", "C", "G"]] for j in range(p)],
+                    "rows": [rand_calls(rng, n, 3, md) for _ in range(p)], "planes": 3})
+    sizes = SIZE_BOUNDARY if tier == "thorough" else [int(x) for x in rng.choice(SIZE_BOUNDARY, size=2, replace=False)]
+    for p in sizes:
+        n, md = int(rng.integers(1, 3)), mode()
+        vs = [[f"v{j}", "1" if j < p // 2 else "2", 10 + 3 * j, ["A", "C"] if j % 50 else ["G", "T", "GA"]] for j in range(p)]
+        out.append({"samples": [f"s{j}" for j in range(n)], "variants": vs,
+                    "rows": [rand_calls(rng, n, len(v[3]), md) for v in vs], "planes": 3})
+    # 1000|1001: where numpy starts to summarise an array it prints
+    for n in ([1000, 1001] if tier == "thorough" else [int(rng.choice([1000, 1001]))]):
+        md = mode()
+        out.append({"samples": [f"s{j}" for j in range(n)], "variants": [["v0", "1", 10, ["A", "C", "G"]]],
+                    "rows": [rand_calls(rng, n, 3, md, runs=True)], "planes": 3})
+        p = 2001 - n if tier != "thorough" else n
+        calls = rand_calls(rng, p, 2, md, runs=True)
+        out.append({"samples": ["s0"], "variants": [[f"v{j}", "1", 10 + 7 * j, ["A", "C"]] for j in range(p)],
+                    "rows": [[c] for c in calls], "planes": 3})
+    # very many samples / variants (the calls in stretches, so that the literals stay short)
+    for n in (SIZE_HUGE if tier == "thorough" else [int(rng.choice(SIZE_HUGE))]):
+        md = mode()
+        out.append({"samples": [f"s{j}" for j in range(n)], "variants": [["v0", "1", 10, ["A", "C", "G"]]],
+                    "rows": [rand_calls(rng, n, 3, md, runs=True)], "planes": 3})
+    for p in (SIZE_HUGE if tier == "thorough" else [int(rng.choice(SIZE_HUGE))] if huge_variants else []):
+        md = mode()
+        calls = rand_calls(rng, p, 2, md, runs=True)
+        out.append({"samples": ["s0"], "variants": [[f"v{j}", "1", 10 + 7 * j, ["A", "C"]] for j in range(p)],
+                    "rows": [[c] for c in calls], "planes": 3})
+    # positions
+    poss = POS_BOUNDARY + (POS_BEYOND if beyond else [])
+    if tier != "thorough":
+        poss = [2 ** 31 - 1, 2 ** 31 - 2] + [int(x) for x in rng.choice(poss, size=2, replace=False)]
+    for pos in poss:
+        ref = str(rng.choice(["A", "A", "AT", "ACG"]))
+        md = mode()
+        vs = [["v0", "1", 5, ["A", "C"]], ["v1", "1", pos, [ref, "C", "G"]]]
+        if pos == 0:
+            vs = vs[::-1]
+        out.append({"samples": ["s0", "s1"], "variants": vs, "rows": [rand_calls(rng, 2, len(v[3]), md) for v in vs],
+                    "planes": 3})
+    return out
+
+
+def widen(inp):
+    """boundary-directed variants of a matrix (escalated search): the alleles of the first variant replaced by a
+    list of 130 resp. 255 with the observed indices moved to both sides of 127|128 resp. up to 254; the last
+    position moved to 2^31 - 2"""
+    if not inp["variants"]:
+        return
+    for na, remap in ((130, {0: 127, 1: 128, 2: 129, 3: 126}), (255, {0: 254, 1: 128, 2: 253, 3: 200})):
+        v = inp["variants"][0]
+        row = [[remap.get(c[0], c[0]), remap.get(c[1], c[1]), c[2]] for c in inp["rows"][0]]
+        yield dict(inp, variants=[[v[0], v[1], v[2], many_alleles(na)]] + inp["variants"][1:], rows=[row] + inp["rows"][1:])
+    v = inp["variants"][-1]
+    if v[2] < 2 ** 31 - 2 and len(v[3][0]) == 1 and index_of(inp) != "tbi":
+        yield dict(inp, variants=inp["variants"][:-1] + [[v[0], v[1], 2 ** 31 - 2, v[3]]])
 
 
 def chunk_choice(rng, p):
@@ -283,6 +538,35 @@ def features(inp):
         out.append("multi-contig")
     if any(len(v[3]) > 2 for v in inp["variants"]):
         out.append("multiallelic")
+    # widths
+    nas = [len(v[3]) for v in inp["variants"]]
+    if any(na >= 129 for na in nas):
+        out.append("alleles>=129")
+    if any(na == 255 for na in nas):
+        out.append("alleles=255")
+    if any(na > 255 for na in nas):
+        out.append("alleles>255(outside-domain)")
+    idx = {x for v, row in zip(inp["variants"], inp["rows"]) if len(v[3]) <= 255 for c in row for x in c[:2] if x != 255}
+    if any(x >= 128 for x in idx):
+        out.append("index>=128")
+    if idx & {126, 127} and idx & {128, 129}:
+        out.append("index-straddles-127|128")
+    if 254 in idx:
+        out.append("index=254")
+    n, p = len(inp["samples"]), len(inp["variants"])
+    for what, k in (("samples", n), ("variants", p)):
+        for lo in (128, 256, 32768, 65536):
+            if k >= lo:
+                w = f"{what}>={lo}"
+        if k >= 128:
+            out.append(w)
+    ends = [v[2] + len(v[3][0]) - 1 for v in inp["variants"]]
+    if any(v[2] == 0 or e > INT_MAX for v, e in zip(inp["variants"], ends)):
+        out.append("pos:refused(outside-domain)")
+    elif any(v[2] >= 32767 for v in inp["variants"]):
+        out.append("pos:boundary")
+        if any(e == INT_MAX for e in ends):
+            out.append("pos:last-base-at-2^31-1")
     return out
 
 
@@ -292,6 +576,27 @@ def nontrivial_matrix(inp):
 
 def shrink_matrix(inp, keep_one_sample=True):
     p, n = len(inp["variants"]), len(inp["samples"])
+    # large matrices: halves, quarters, ... first (the candidates are built lazily; core takes the first 60)
+    if p > 12:
+        k = p // 2
+        while k >= 1:
+            for a in range(0, p, k):
+                yield dict(inp, variants=inp["variants"][a:a + k], rows=inp["rows"][a:a + k])
+            if p // k > 8:
+                break
+            k //= 2
+        # ... or one half less
+        yield dict(inp, variants=inp["variants"][:p - p // 2], rows=inp["rows"][:p - p // 2])
+    if n > 12:
+        k = n // 2
+        while k >= 1:
+            for a in range(0, n, k):
+                yield dict(inp, samples=inp["samples"][a:a + k], rows=[r[a:a + k] for r in inp["rows"]])
+            if n // k > 8:
+                break
+            k //= 2
+    if p > 40 or n > 40:
+        return
     for j in range(p):
         yield dict(inp, variants=inp["variants"][:j] + inp["variants"][j + 1:], rows=inp["rows"][:j] + inp["rows"][j + 1:])
     if n > (1 if keep_one_sample else 0):
@@ -374,9 +679,11 @@ class WriterRecorder:
 
 
 def batch_term(b):
-    pairs = lambda row: L.lst([(row[i], row[i + 1]) for i in range(0, len(row) - 1, 2)], lambda xy: f"({L.z(xy[0])}, {L.z(xy[1])})")
-    ph = "None" if b["phase"] is None else f"(Some {L.lst(b['phase'], L.zl)})"
-    return f"(mkb {L.lst(b['codes'], pairs)} {L.zl(b['cts'])} {ph})"
+    pairs = lambda row: seq_compact([f"({L.z(row[i])}, {L.z(row[i + 1])})" for i in range(0, len(row) - 1, 2)])
+    ph = "None"
+    if b["phase"] is not None:
+        ph = "(Some " + seq_compact([seq_compact([L.z(x) for x in r]) for r in b["phase"]]) + ")"
+    return f"(mkb {seq_compact([pairs(r) for r in b['codes']])} {seq_compact([L.z(c) for c in b['cts']])} {ph})"
 
 
 def pgenlib_dump(path):
@@ -407,7 +714,8 @@ def praw_term(r):
     if r["pvar_p"] != r["p"]:
         return "(Err 97)"
     sc = lambda c: f"({L.z(c[0])}, {L.z(c[1])}, {L.z(c[2])})"
-    return f"(Ok (mkpr {L.z(r['n'])} {L.z(r['p'])} {L.zl(r['cts'])} {L.lst(r['calls'], lambda row: L.lst(row, sc))}))"
+    calls = seq_compact([seq_compact([sc(c) for c in row]) for row in r["calls"]])
+    return f"(Ok (mkpr {L.z(r['n'])} {L.z(r['p'])} {seq_compact([L.z(c) for c in r['cts']])} {calls}))"
 
 
 class Pgen(Relation):
@@ -432,7 +740,7 @@ class Pgen(Relation):
     def generate(self, rng, n, tier):
         out = []
         for i in range(n):
-            m = gen_matrix(rng, half_ok=(rng.random() < 0.08))
+            m = gen_matrix(rng, half_ok=(rng.random() < 0.08), bigpos=0.05, beyond=True)
             m = with_empty_shapes(rng, m)
             p = len(m["variants"])
             m["cw"] = chunk_choice(rng, p)
@@ -441,6 +749,16 @@ class Pgen(Relation):
                 m["cw" if rng.random() < 0.5 else "cr"] = 0      # malformed: chunk_size = 0
             m["wpre"] = bool(rng.random() < 0.1)                 # _prephased on the writing object
             m["rpre"] = bool(rng.random() < 0.12)                # _prephased on the reading object
+            out.append(m)
+        for m in boundary_matrices(rng, tier):
+            p = len(m["variants"])
+            near = [None, 1, 127, 128, 255, 256, p - 1, p, p + 1]
+            m["cw"], m["cr"] = [near[int(i)] for i in rng.integers(0, len(near), size=2)]
+            if p > 2000:
+                m["cw"] = m["cr"] = None
+            m["cw"] = None if m["cw"] == 0 else m["cw"]
+            m["cr"] = None if m["cr"] == 0 else m["cr"]
+            m["wpre"] = m["rpre"] = False
             out.append(m)
         return out
 
@@ -466,12 +784,19 @@ class Pgen(Relation):
                 for cr in (None, 1, p + 1):
                     for wpre, rpre in ((False, False), (True, False), (False, True)):
                         out.append(dict(m, cw=cw, cr=cr, wpre=wpre, rpre=rpre))
+        # the width-boundary matrices (no very large ones) under both attributes
+        for m in boundary_matrices(rng, "quick"):
+            if len(m["samples"]) > 1000 or len(m["variants"]) > 1000:
+                continue
+            for wpre, rpre in ((False, False), (True, False), (False, True)):
+                out.append(dict(m, cw=None, cr=2, wpre=wpre, rpre=rpre))
         return out
 
     def run_impl(self, inp):
         from haptools.data import GenotypesPLINK
         from haptools.logging import getLogger
 
+        freeze_once()
         d = tempfile.mkdtemp(prefix="hv_c07_")
         try:
             path = os.path.join(d, "x.pgen")
@@ -561,6 +886,7 @@ class Pgen(Relation):
         if inp["samples"]:
             yield dict(inp, samples=[], rows=[[] for _ in inp["rows"]])
         yield dict(inp, variants=[], rows=[])
+        yield from widen(inp)
 
     def signature(self, inp, obs):
         f = features(inp)
@@ -603,6 +929,17 @@ def sorted_for_index(inp):
         if v[2] < last:
             return False
         last = v[2]
+    return True
+
+
+def index_ok(inp, idx):
+    """can pysam.tabix_index build this index for the file: records sorted; a .tbi holds ends up to 2^29"""
+    if idx is None:
+        return True
+    if not sorted_for_index(inp):
+        return False
+    if idx == "tbi" and any(v[2] + len(v[3][0]) - 1 >= 2 ** 29 - 1 for v in inp["variants"]):
+        return False
     return True
 
 
@@ -654,10 +991,12 @@ class Vcf(Relation):
     def generate(self, rng, n, tier):
         out = []
         for i in range(n):
-            m = gen_matrix(rng, half_ok=True)
+            m = gen_matrix(rng, half_ok=True, bigpos=0.05, beyond=True)
             m = with_empty_shapes(rng, m)
             fmt, idx = FORMATS[int(rng.integers(0, len(FORMATS)))]
-            if idx is not None and not sorted_for_index(m):
+            if idx == "tbi" and not index_ok(m, idx):
+                idx = "csi"
+            if not index_ok(m, idx):
                 idx = None
             m["fmt"], m["index"] = fmt, idx
             m["wpre"] = bool(rng.random() < 0.1)
@@ -666,6 +1005,16 @@ class Vcf(Relation):
             m["region"] = None
             if m["variants"] and rng.random() < 0.6:
                 m["region"] = m["variants"][int(rng.integers(0, len(m["variants"])))][1]
+            out.append(m)
+        # (tens of thousands of variants: in the quick tier through PGEN only, whose reader and writer keep
+        # per-variant index and count arrays of fixed width)
+        for m in boundary_matrices(rng, tier, huge_variants=False):
+            fmt, idx = FORMATS[int(rng.integers(0, len(FORMATS)))]
+            if idx == "tbi" and not index_ok(m, idx):
+                idx = "csi"
+            m["fmt"], m["index"] = fmt, idx
+            m["wpre"] = m["rpre"] = False
+            m["region"] = m["variants"][-1][1] if rng.random() < 0.5 else None
             out.append(m)
         return out
 
@@ -682,6 +1031,18 @@ class Vcf(Relation):
             for fmt, idx in FORMATS:
                 for region in ([None] + sorted({v[1] for v in m["variants"]})):
                     out.append(dict(m, fmt=fmt, index=idx, wpre=False, rpre=False, region=region))
+        # the width-boundary matrices (no very large ones) in every format / index combination
+        for m in boundary_matrices(rng, "quick"):
+            if len(m["samples"]) > 1000 or len(m["variants"]) > 1000:
+                continue
+            for fmt, idx in FORMATS:
+                if index_ok(m, idx):
+                    out.append(dict(m, fmt=fmt, index=idx, wpre=False, rpre=False, region=None))
+        # 300 contigs with one variant each
+        vs = [[f"v{j}", f"c{j}", 10 + j, ["A", "C"]] for j in range(300)]
+        m = {"samples": ["s0", "s1"], "variants": vs, "rows": [rand_calls(rng, 2, 2, "mixed") for _ in vs], "planes": 3}
+        for fmt, idx in (("vcf", None), ("bcf", None), ("vcf.gz", "csi")):
+            out.append(dict(m, fmt=fmt, index=idx, wpre=False, rpre=False, region="c299" if idx else None))
         return out
 
     def run_impl(self, inp):
@@ -689,6 +1050,7 @@ class Vcf(Relation):
         from haptools.data import GenotypesVCF
         from haptools.logging import getLogger
 
+        freeze_once()
         d = tempfile.mkdtemp(prefix="hv_c07_")
         try:
             path = os.path.join(d, "x." + inp["fmt"])
@@ -726,8 +1088,14 @@ class Vcf(Relation):
             file = back = f"(Err {oerr(obs)})"
         else:
             vc = lambda c: f"({L.opt(c[0], L.z)}, {L.opt(c[1], L.z)}, {L.b(c[2])})"
-            rec = lambda r: f"({E.variant(r[0])}, {L.lst(r[1], vc)})"
-            file = L.res(obs["file"], lambda f: f"(mkvf {L.lst(f['samples'], E.s)} {L.lst(f['recs'], rec)})")
+
+            def recs(rs):
+                if len(rs) < 24:
+                    return L.lst(rs, lambda r: f"({E.variant(r[0])}, {seq_compact([vc(c) for c in r[1]])})")
+                return (f"(combine {E.variants([r[0] for r in rs])} "
+                        f"{seq_compact([seq_compact([vc(c) for c in r[1]]) for r in rs])})")
+
+            file = L.res(obs["file"], lambda f: f"(mkvf {E.samples(f['samples'])} {recs(f['recs'])})")
             back = E.rgeno(obs["back"])
             if obs.get("rback") is not None:
                 rback = E.rgeno(obs["rback"])
@@ -754,7 +1122,7 @@ class Vcf(Relation):
             if inp.get(key):
                 yield dict(inp, **{key: False})
         for c in shrink_matrix(inp, keep_one_sample=bool(inp["samples"])):
-            if index_of(inp) and not sorted_for_index(c):
+            if not index_ok(c, index_of(inp)):
                 continue
             if c.get("region") is not None and c["region"] not in {v[1] for v in c["variants"]}:
                 c = dict(c, region=None)
@@ -762,11 +1130,12 @@ class Vcf(Relation):
 
     def mutate(self, inp, rng):
         for fmt, idx in FORMATS:
-            if idx is None or sorted_for_index(inp):
+            if index_ok(inp, idx):
                 yield dict(inp, fmt=fmt, index=idx)
         if inp["samples"]:
             yield dict(inp, samples=[], rows=[[] for _ in inp["rows"]])
         yield dict(inp, variants=[], rows=[], region=None)
+        yield from widen(inp)
 
     def signature(self, inp, obs):
         sh = shape_class(inp)
@@ -856,7 +1225,7 @@ def gen_alleles(rng):
     return out
 
 
-def gen_text_case(rng):
+def gen_text_case(rng, many=0.025):
     target = str(rng.choice(["pgen", "pgen", "vcf", "vcf.gz", "bcf"]))
     n = int(rng.choice([0, 1, 2, 3, 4])) if rng.random() < 0.9 else 6
     p = int(rng.choice([0, 1, 2, 3])) if rng.random() < 0.9 else 5
@@ -877,13 +1246,23 @@ def gen_text_case(rng):
             vid = vid.replace(" ", "_")
         ids.append(vid)
         alleles = gen_alleles(rng)
-        pos = int(rng.integers(1, 1000)) if rng.random() < 0.8 else int(rng.choice([1, 2 ** 31 - 2, 10 ** 9, 536870912, 99999999]))
+        wide = rng.random() < many
+        if wide:
+            # a repeat-like variant with 129..255 alleles: ALT is a list of up to 254 comma-separated strings
+            alleles = many_alleles(int(rng.choice(MANY_ALLELES)))
+        pos = (int(rng.integers(1, 1000)) if rng.random() < 0.8 else
+               int(rng.choice([1, 2 ** 31 - 2, 10 ** 9, 536870912, 99999999] + POS_BOUNDARY)))
         pos = min(pos, 2 ** 31 - len(alleles[0]))     # htslib: the last base of REF lies at or below 2^31 - 1
+        if target == "pgen":
+            pos = min(pos, 2 ** 31 - 2)               # pgenlib's .pvar reader refuses 2^31 - 1
         variants.append([vid, gen_contig(rng), pos, alleles])
         row = []
+        bnd = [x for x in INDEX_BOUNDARY + [len(alleles) - 1] if x < len(alleles)]
         for s in range(n):
             a = None if rng.random() < 0.15 else int(rng.integers(0, len(alleles)))
             b = None if rng.random() < 0.15 else int(rng.integers(0, len(alleles)))
+            if wide and a is not None and b is not None:
+                a, b = int(rng.choice(bnd)), int(rng.choice(bnd))
             if target == "pgen" and (a is None) != (b is None):
                 a = b = None                     # PGEN cannot hold a half-missing call
             row.append([a, b, bool(rng.random() < 0.5)])
@@ -924,7 +1303,16 @@ class Text(Relation):
     ]
 
     def generate(self, rng, n, tier):
-        return [gen_text_case(rng) for _ in range(n)]
+        out = [gen_text_case(rng) for _ in range(n)]
+        # in every run: the long ALT column of a variant with many alleles, for a text and a binary target
+        for target in (["pgen", "vcf", "vcf.gz", "bcf"] if tier == "thorough" else
+                       [str(rng.choice(["pgen", "vcf", "vcf.gz"])), "bcf"]):
+            c = None
+            while c is None or c["target"] != target or not c["variants"] or not c["samples"]:
+                c = gen_text_case(rng, many=1.0)
+            c["variants"], c["calls"] = c["variants"][:1], c["calls"][:1]
+            out.append(c)
+        return out
 
     def exhaustive(self, tier):
         # every reserved / boundary name once as the only sample and once as the only variant ID, per target
@@ -944,6 +1332,7 @@ class Text(Relation):
         from haptools.data import GenotypesVCF, GenotypesPLINK
         from haptools.logging import getLogger
 
+        freeze_once()
         d = tempfile.mkdtemp(prefix="hv_c07_")
         try:
             target = inp["target"]
@@ -1049,6 +1438,12 @@ class Text(Relation):
             out.append("allele:very-long")
         if any(v[2] > 10 ** 8 for v in inp["variants"]):
             out.append("pos:large")
+        if any(v[2] + len(v[3][0]) - 1 == INT_MAX for v in inp["variants"]):
+            out.append("pos:last-base-at-2^31-1")
+        if any(len(v[3]) >= 129 for v in inp["variants"]):
+            out.append("alleles>=129")
+        if any(x is not None and x >= 128 for r in inp["calls"] for c in r for x in c[:2]):
+            out.append("index>=128")
         return out
 
     def shrink(self, inp):
@@ -1114,7 +1509,10 @@ LEVEL_TEXT = (
     "precondition, PGEN and VCF round trips, independence of the VCF read from format and index, the shapes without "
     "entries, the refusal of half-missing calls by PGEN) under stated contracts of pgenlib, pysam/cyvcf2 and htslib, "
     "and about a character-level model of the .psam/.pvar/.vcf text (every list of sample names, every variant's ID, "
-    "contig, position and alleles, every GT token is read back as written). The models are tied to /repo on every "
+    "contig, position and alleles, every GT token is read back as written); every allele index 0..254 goes through both "
+    "codecs unchanged and any writer that turns an index below 255 into '.' breaks the round trip; positions and allele "
+    "counts the formats cannot hold are refused before anything is stored (and nothing else is); what holds = true "
+    "means for every setting of the _prephased attributes. The models are tied to /repo on every "
     "run: the calls haptools makes to pgenlib.PgenWriter are recorded and compared, the written files are read "
     "independently with pgenlib and pysam and as text, and the object haptools reads back is compared with the model "
     "and checked against the property inside Coq."
